@@ -1775,10 +1775,53 @@ func ruleScopeSearch(p *Program, r *Reporter) {
 	if search == nil {
 		search = envGet
 	}
+	// the loop itself may live in a helper of the search (one that hands back
+	// the scope the name was found in)
+	loopFn := search
+	indexesScopes := func(fn *ssa.Function) bool {
+		for _, b := range fn.Blocks {
+			for _, ins := range b.Instrs {
+				if ia, ok := ins.(*ssa.IndexAddr); ok {
+					if u, ok := ia.X.(*ssa.UnOp); ok && fieldKey(u.X) == er.scopeField {
+						if _, _, _, _, ok := induction(ia.Index); ok {
+							return true
+						}
+					}
+				}
+			}
+		}
+		return false
+	}
+	if !indexesScopes(search) {
+		var find func(fn *ssa.Function, d int) *ssa.Function
+		find = func(fn *ssa.Function, d int) *ssa.Function {
+			if d > 2 {
+				return nil
+			}
+			for _, b := range fn.Blocks {
+				for _, ins := range b.Instrs {
+					cc := callOf(ins)
+					if cc == nil || cc.StaticCallee() == nil || !recvNamed(cc.StaticCallee(), "environment", "Environment") {
+						continue
+					}
+					if indexesScopes(cc.StaticCallee()) {
+						return cc.StaticCallee()
+					}
+					if g := find(cc.StaticCallee(), d+1); g != nil {
+						return g
+					}
+				}
+			}
+			return nil
+		}
+		if g := find(search, 0); g != nil {
+			loopFn = g
+		}
+	}
 	// loop shape: φ(len(scopes), φ-1); index φ-1
 	good := false
 	why := "no search loop over the scope stack found"
-	for _, b := range search.Blocks {
+	for _, b := range loopFn.Blocks {
 		for _, ins := range b.Instrs {
 			ia, ok := ins.(*ssa.IndexAddr)
 			if !ok {
@@ -1838,7 +1881,7 @@ func ruleScopeSearch(p *Program, r *Reporter) {
 	// every other loop over the scope stack (the one that updates an existing
 	// local) must walk the same way
 	for _, fn := range p.LibFns {
-		if !recvNamed(fn, "environment", "Environment") || fn == search {
+		if !recvNamed(fn, "environment", "Environment") || fn == search || fn == loopFn {
 			continue
 		}
 		for _, b := range fn.Blocks {
@@ -2295,8 +2338,28 @@ func ruleMachineNil(p *Program, r *Reporter) {
 		}
 		// the machine is stored in this function before the use (Prepare builds it)
 		builds := false
+		storesMachine := func(in ssa.Instruction) bool {
+			st, ok := in.(*ssa.Store)
+			if !ok || fieldKey(st.Addr) != "evalfilter.Eval.machine" {
+				return false
+			}
+			_, isCall := st.Val.(*ssa.Call)
+			return isCall
+		}
 		for _, b := range fn.Blocks {
 			for _, ins := range b.Instrs {
+				// a helper that stores a newly built machine on every path
+				if cc := callOf(ins); cc != nil && cc.StaticCallee() != nil && performs(ins, storesMachine, 2) {
+					all := true
+					for _, u := range uses {
+						if !dominatesInstr(ins, u) {
+							all = false
+						}
+					}
+					if all {
+						builds = true
+					}
+				}
 				if st, ok := ins.(*ssa.Store); ok && fieldKey(st.Addr) == "evalfilter.Eval.machine" {
 					all := true
 					for _, u := range uses {
